@@ -3,6 +3,7 @@ import TracklibVerif.Lemmas.PartitionArr
 import TracklibVerif.Lemmas.PartitionFront
 import TracklibVerif.Lemmas.PartitionTree
 import TracklibVerif.Lemmas.PartitionRound
+import TracklibVerif.Lemmas.PartitionStops
 import Mathlib.Algebra.Order.Group.Int
 import Mathlib.Algebra.Order.Field.Rat
 set_option linter.unusedSectionVars false
@@ -17,7 +18,12 @@ T1/T2 (`result_shape`, `optimal_min`, `optimal_max`): costs in any linearly orde
 exact arithmetic). `optimal_bracketed`: any monotone addition, no associativity — the statement that holds for IEEE
 doubles without NaN. T3: the front ends `optimalSegmentation` (call protocol of the cost function, requested parameter,
 matrix construction), `optimalSimplification`, `simplify` modes 4–8 and `findStopsGlobal`, each composed with T1/T2.
-Lists are Python lists of indices. -/
+`findStopsGlobal` twice: with its tests as abstract predicates (`stops_matrix`, `stops_documented`, `stops_optimal`), and read
+from the track (`Lemmas/PartitionStops.lean`; ordered commutative ring): `stops_planimetric` (the altitude is never read),
+`stops_criterion` (the reward matrix is the documented one — enclosing circle and duration only: the row loop's early exit is
+sound for the PLANIMETRIC distance), `stops_fit_in_circle`, `stops_track_optimal`, `stops_final_filter`, `find_stops_global`
+(caller's arguments → stops returned, `downsampling` included) and `find_stops_global_checked` (its hypothesis on the circles
+as the certificate `enclosedB` the driver evaluates on every case). Lists are Python lists of indices. -/
 namespace TV.C12
 open TV.Partition
 variable {α : Type} [AddCommMonoid α] [LinearOrder α] [IsOrderedAddMonoid α]
@@ -540,6 +546,289 @@ theorem stops_optimal (sq : Nat → α) (p : StopPred) (size : Nat) (h : 3 ≤ s
   rw [← hcongr _ s1 s2 s3]
   exact hopt
 
+/-! ## stop detection from the track: the documented, planimetric criterion -/
+
+/-- **the altitude is never read**: `findStopsGlobal(track, diameter, duration, downsampling)` — matrix, segmentation, final
+filter, identifiers — is the same for two tracks (and two resampled copies) that agree on `x`, `y` and the times, whatever
+their `z` (large variations, NaN …): the documented size of a stop is that of an enclosing CIRCLE. Holds for any scalar
+type (no algebraic law is used). -/
+theorem stops_planimetric {β : Type} [Add β] [LT β] [DecidableLT β] [Sub β] [Mul β] (zero one : β) (sq ofNat : Nat → β)
+    (track track' resampled resampled' : List (Fix β)) (circ2 circA : Nat → Nat → Option β) (diameter duration downsampling : β)
+    (h1 : track.map Fix.flat = track'.map Fix.flat) (h2 : resampled.map Fix.flat = resampled'.map Fix.flat) :
+    findStopsGlobalPy zero one sq ofNat track resampled circ2 circA diameter duration downsampling =
+      findStopsGlobalPy zero one sq ofNat track' resampled' circ2 circA diameter duration downsampling := by
+  have key : ∀ l l' : List (Fix β), l.map Fix.flat = l'.map Fix.flat →
+      l.length = l'.length ∧
+      stopPredTrack zero (getFix zero l) circ2 diameter duration = stopPredTrack zero (getFix zero l') circ2 diameter duration ∧
+      stopKeepTrack zero (getFix zero l) circA diameter duration = stopKeepTrack zero (getFix zero l') circA diameter duration := by
+    intro l l' h
+    refine ⟨by simpa using congrArg List.length h, stopPredTrack_flat zero _ _ (getFix_flat zero l l' h) _ _ _,
+      stopKeepTrack_flat zero _ _ (getFix_flat zero l l' h) _ _ _⟩
+  unfold findStopsGlobalPy stopsTrack
+  by_cases hds : one < downsampling
+  · obtain ⟨a, b, c⟩ := key _ _ h2
+    simp only [if_pos hds, a, b, c]
+  · obtain ⟨a, b, c⟩ := key _ _ h1
+    simp only [if_neg hds, a, b, c]
+
+/-- array form of stop detection (run by the driver) = `findStopsGlobalPy`: same errors, and on success the segmentation is
+`stopsSegmentation`, the stops are `stopsReported` and the identifiers those of `findStopsGlobalPy` -/
+theorem find_stops_array_form {β : Type} [Add β] [LT β] [DecidableLT β] [Sub β] [Mul β] (zero one : β) (sq ofNat : Nat → β)
+    (track resampled : List (Fix β)) (circ2 circA : Nat → Nat → Option β) (diameter duration downsampling : β) :
+    (findStopsGlobalPyA zero one sq ofNat track resampled circ2 circA diameter duration downsampling).map (fun r => r.2.2) =
+      findStopsGlobalPy zero one sq ofNat track resampled circ2 circA diameter duration downsampling ∧
+    ∀ seg st ids, findStopsGlobalPyA zero one sq ofNat track resampled circ2 circA diameter duration downsampling = .ok (seg, st, ids) →
+      let tr := stopsTrack one downsampling track resampled
+      let p := stopPredTrack zero (getFix zero tr) circ2 diameter duration
+      seg = stopsSegmentation zero sq p tr.length ∧
+      st = stopsReported zero sq p (stopKeepTrack zero (getFix zero tr) circA diameter duration) tr.length := by
+  unfold findStopsGlobalPyA findStopsGlobalPy stopsReported stopsSegmentation
+  simp only [optimalPartitionA_eq]
+  constructor
+  · split
+    · rfl
+    · split <;> rfl
+  · intro seg st ids h
+    split at h
+    · cases h
+    · split at h
+      · cases h
+      · simp only [Except.ok.injEq, Prod.mk.injEq] at h
+        exact ⟨h.1.symm, h.2.1.symm⟩
+
+section track
+variable {K : Type} [CommRing K] [LinearOrder K] [IsStrictOrderedRing K]
+
+/-- the documented test on the observations `a … e` of the track: the segment lasts at least `duration` and `minCircle`
+gives a circle of diameter at most `diameter` (squared: `circ2 a e ≤ diameter²`); inclusive boundaries, as documented -/
+def stopsAdmitted (tr : Nat → Fix K) (circ2 : Nat → Nat → Option K) (diameter duration : K) (a e : Nat) : Bool :=
+  match circ2 a e with
+  | some c => decide (duration ≤ (tr e).t - (tr a).t ∧ c ≤ diameter * diameter)
+  | none => false
+
+/-- the documented reward of the segment `[a, b)` (source comment of `findStopsGlobal`): `C_ab = 0` if the enclosing circle of
+`p_a … p_{b−1}` is `> diameter`, `0` if the time elapsed between `p_a` and `p_{b−1}` is `< duration`, `(b−a)²` otherwise.
+No other condition: the distance test with its `break` does not appear. -/
+def stopsDocumented (sq : Nat → K) (tr : Nat → Fix K) (circ2 : Nat → Nat → Option K) (diameter duration : K) (a b : Nat) : K :=
+  if stopsAdmitted tr circ2 diameter duration a (b - 1) then sq (b - a) else 0
+
+/-- **T3 `stops_criterion`** — the reward matrix of `findStopsGlobal` IS the documented one. Hypothesis `hc`: every circle
+`minCircle` returns encloses, in the plane, the observations of its segment (squared diameter `circ2 i e = 4 r²`, centre
+`(cx, cy)`). Then for `0 ≤ diameter` and candidates `a < b ≤ size − 2` the cell `(a, b)` holds `stopsDocumented a b`: the
+row loop's early exit (`distance2DTo(p_a, p_{j−1}) > diameter: break`) never removes a reward the documented criterion
+grants, because two points of a disc are at most one diameter apart IN THE PLANE. (With a distance that is not the
+planimetric one — `distanceTo`, which adds the altitude — this is false: seeded change C12-6.) Exact arithmetic
+(ordered commutative ring); on doubles the comparisons with the thresholds are those of the code, sampled by the check. -/
+theorem stops_criterion (sq : Nat → K) (tr : Nat → Fix K) (circ2 : Nat → Nat → Option K) (diameter duration : K)
+    (hd : 0 ≤ diameter)
+    (size : Nat)
+    (hc : ∀ i e c, i ≤ e → e < size → circ2 i e = some c → ∃ cx cy r2, c = 4 * r2 ∧ Enclosed tr cx cy r2 i e)
+    (a b : Nat) (hab : a < b) (hb : b ≤ size - 2) (hs : 3 ≤ size) :
+    stopsReward 0 sq (stopPredTrack 0 tr circ2 diameter duration) size a b = stopsDocumented sq tr circ2 diameter duration a b := by
+  unfold stopPredTrack
+  rw [if_neg (not_lt.mpr hd)]
+  obtain ⟨h1, h0⟩ := stops_documented sq (fun i e => dist2D2 (tr i) (tr e)) (fun i e => (tr e).t - (tr i).t) circ2
+    (diameter * diameter) duration size a b hab hb hs
+  unfold stopsDocumented stopsAdmitted
+  cases hcirc : circ2 a (b - 1) with
+  | none =>
+    simp only [Bool.false_eq_true, if_false]
+    apply h0
+    rintro ⟨_, _, d, hc', _⟩
+    rw [hcirc] at hc'; cases hc'
+  | some c =>
+    by_cases hcond : duration ≤ (tr (b - 1)).t - (tr a).t ∧ c ≤ diameter * diameter
+    · simp only [hcond, and_self, decide_true, if_true]
+      apply h1
+      refine ⟨?_, hcond.1, c, hcirc, hcond.2⟩
+      intro j hj1 hj2
+      obtain ⟨cx, cy, r2, e, henc⟩ := hc _ _ _ (by omega) (by omega) hcirc
+      have := dist2D2_le_of_disc (tr a) (tr (j - 1)) cx cy r2 (henc a (Nat.le_refl _) (by omega)) (henc (j - 1) (by omega) (by omega))
+      calc dist2D2 (tr a) (tr (j - 1)) ≤ 4 * r2 := this
+        _ = c := e.symm
+        _ ≤ diameter * diameter := hcond.2
+    · simp only [hcond, decide_false, Bool.false_eq_true, if_false]
+      apply h0
+      rintro ⟨_, hdu, c', hc', hle⟩
+      rw [hcirc] at hc'
+      cases hc'
+      exact hcond ⟨hdu, hle⟩
+
+/-- a negative `diameter` is exceeded by every distance: the reward matrix is zero -/
+theorem stops_negative_diameter (sq : Nat → K) (tr : Nat → Fix K) (circ2 : Nat → Nat → Option K) (diameter duration : K)
+    (hd : diameter < 0) (size a b : Nat) (hab : a < b) (hb : b ≤ size - 2) (hs : 3 ≤ size) :
+    stopsReward 0 sq (stopPredTrack 0 tr circ2 diameter duration) size a b = 0 := by
+  unfold stopPredTrack
+  rw [if_pos hd]
+  exact ((stops_matrix sq _ size).2.2 a b hab hb hs).1 (Or.inl ⟨b, hab, Nat.le_refl _, rfl⟩)
+
+/-- **T3 `stops_fit_in_circle`** — the criterion without reference to `minCircle`'s answer: if moreover the circle returned is
+a MINIMAL enclosing circle (`hmin`: no enclosing disc is smaller), the reward of `(a, b)` is `(b − a)²` exactly when the segment
+lasts at least `duration` and the observations `p_a … p_{b−1}` FIT IN SOME DISC of diameter at most `diameter` (in the plane);
+`0` otherwise. (`hsome`: `minCircle` did return a circle; `None` gives `0`: class `stops-mincircle-none`.) -/
+theorem stops_fit_in_circle (sq : Nat → K) (tr : Nat → Fix K) (circ2 : Nat → Nat → Option K) (diameter duration : K)
+    (hd : 0 ≤ diameter)
+    (size : Nat)
+    (hc : ∀ i e c, i ≤ e → e < size → circ2 i e = some c → ∃ cx cy r2, c = 4 * r2 ∧ Enclosed tr cx cy r2 i e)
+    (hmin : ∀ i e c, circ2 i e = some c → ∀ cx cy r2, Enclosed tr cx cy r2 i e → c ≤ 4 * r2)
+    (a b : Nat) (hab : a < b) (hb : b ≤ size - 2) (hs : 3 ≤ size) (hsome : circ2 a (b - 1) ≠ none) :
+    let fits := duration ≤ (tr (b - 1)).t - (tr a).t ∧
+      ∃ cx cy r2, Enclosed tr cx cy r2 a (b - 1) ∧ 4 * r2 ≤ diameter * diameter
+    (fits → stopsReward 0 sq (stopPredTrack 0 tr circ2 diameter duration) size a b = sq (b - a)) ∧
+    (¬ fits → stopsReward 0 sq (stopPredTrack 0 tr circ2 diameter duration) size a b = 0) := by
+  intro fits
+  rw [stops_criterion sq tr circ2 diameter duration hd size hc a b hab hb hs]
+  unfold stopsDocumented stopsAdmitted
+  cases hcirc : circ2 a (b - 1) with
+  | none => exact absurd hcirc hsome
+  | some c =>
+    have key : (duration ≤ (tr (b - 1)).t - (tr a).t ∧ c ≤ diameter * diameter) ↔ fits := by
+      constructor
+      · rintro ⟨h1, h2⟩
+        obtain ⟨cx, cy, r2, e, henc⟩ := hc _ _ _ (by omega) (by omega) hcirc
+        exact ⟨h1, cx, cy, r2, henc, by rw [← e]; exact h2⟩
+      · rintro ⟨h1, cx, cy, r2, henc, hle⟩
+        exact ⟨h1, le_trans (hmin _ _ _ hcirc cx cy r2 henc) hle⟩
+    by_cases hf : fits
+    · refine ⟨fun _ => ?_, fun h => absurd hf h⟩
+      rw [if_pos (decide_eq_true (key.mpr hf))]
+    · refine ⟨fun h => absurd h hf, fun _ => ?_⟩
+      rw [if_neg]
+      intro h
+      exact hf (key.mp (of_decide_eq_true h))
+
+/-- **T3 `stops_track_optimal`** — `findStopsGlobal` optimises the criterion it documents: under `stops_criterion`'s hypotheses
+the segmentation computed from the track is a strictly increasing list from `0` to `size − 2` that MAXIMISES the summed
+DOCUMENTED reward `Σ stopsDocumented(i_k, i_{k+1})` over all such lists. -/
+theorem stops_track_optimal (sq : Nat → K) (tr : Nat → Fix K) (circ2 : Nat → Nat → Option K) (diameter duration : K)
+    (hd : 0 ≤ diameter)
+    (size : Nat)
+    (hc : ∀ i e c, i ≤ e → e < size → circ2 i e = some c → ∃ cx cy r2, c = 4 * r2 ∧ Enclosed tr cx cy r2 i e)
+    (h : 3 ≤ size)
+    (π : List Nat) (h0 : π.head? = some 0) (hN : π.getLast? = some (size - 2)) (hinc : π.Pairwise (· < ·)) :
+    let seg := stopsSegmentation 0 sq (stopPredTrack 0 tr circ2 diameter duration) size
+    seg.head? = some 0 ∧ seg.getLast? = some (size - 2) ∧ seg.Pairwise (· < ·) ∧
+    pathCost 0 (stopsDocumented sq tr circ2 diameter duration) seg ≥ pathCost 0 (stopsDocumented sq tr circ2 diameter duration) π := by
+  intro seg
+  obtain ⟨s1, s2, s3, hopt⟩ := stops_optimal sq (stopPredTrack 0 tr circ2 diameter duration) size h π h0 hN hinc
+  refine ⟨s1, s2, s3, ?_⟩
+  have hcongr : ∀ (l : List Nat), l.head? = some 0 → l.getLast? = some (size - 2) → l.Pairwise (· < ·) →
+      pathCost 0 (stopsReward 0 sq (stopPredTrack 0 tr circ2 diameter duration) size) l =
+        pathCost 0 (stopsDocumented sq tr circ2 diameter duration) l := by
+    intro l l0 lN linc
+    cases l with
+    | nil => cases l0
+    | cons a t =>
+      rw [lastOf_getLast?] at lN
+      have hl : lastOf a t = size - 2 := by simpa using lN
+      exact pathCost_congr _ _ (size - 2)
+        (fun x y hxy hy => stops_criterion sq tr circ2 diameter duration hd size hc x y hxy hy h) t a
+        ((inc_pairwise _).mpr linc) (by omega)
+  rw [hcongr π h0 hN hinc, hcongr _ s1 s2 s3] at hopt
+  exact hopt
+
+/-- the final filter of `findStopsGlobal` (`C is None`, `C.radius > diameter/2`, `portion.duration() < duration`) is the
+documented test with the same inclusive boundaries -/
+theorem stops_final_filter (tr : Nat → Fix K) (circA : Nat → Nat → Option K) (diameter duration : K) (hd : 0 ≤ diameter) :
+    stopKeepTrack 0 tr circA diameter duration = stopsAdmitted tr circA diameter duration := by
+  funext a e
+  unfold stopKeepTrack stopsAdmitted
+  cases circA a e with
+  | none => rfl
+  | some c =>
+    simp only [not_lt.mpr hd, decide_false, Bool.false_or]
+    by_cases h1 : diameter * diameter < c <;> by_cases h2 : (tr e).t - (tr a).t < duration <;>
+      simp [h1, h2, not_le.mpr, not_lt.mp]
+
+/-- **T3 `find_stops_global`** — `findStopsGlobal(track, diameter, duration, downsampling)` from the caller's arguments: on the
+track the function works on (`tr`: the resampled copy when `downsampling > 1`, the track itself otherwise; at least three
+observations), with `0 ≤ diameter` and a `minCircle` that returns enclosing circles and the same answer in the row loops and
+in the final filter, the call returns — as `(id_ini, id_end, nb_points) = (a·downsampling, (b−1)·downsampling, b − a)` —
+exactly the segments `[a, b)` ADMITTED by the documented criterion of a strictly increasing list `seg` from `0` to `size − 2`
+that maximises the summed documented reward over all such lists. -/
+theorem find_stops_global (sq ofNat : Nat → K) (track resampled : List (Fix K)) (circ2 : Nat → Nat → Option K)
+    (diameter duration downsampling : K) (hd : 0 ≤ diameter)
+    (hs : 3 ≤ (stopsTrack 1 downsampling track resampled).length)
+    (hc : ∀ i e c, i ≤ e → e < (stopsTrack 1 downsampling track resampled).length → circ2 i e = some c →
+      ∃ cx cy r2, c = 4 * r2 ∧ Enclosed (getFix 0 (stopsTrack 1 downsampling track resampled)) cx cy r2 i e) :
+    let tr := getFix 0 (stopsTrack 1 downsampling track resampled)
+    let size := (stopsTrack 1 downsampling track resampled).length
+    ∃ seg : List Nat,
+      seg.head? = some 0 ∧ seg.getLast? = some (size - 2) ∧ seg.Pairwise (· < ·) ∧
+      (∀ π : List Nat, π.head? = some 0 → π.getLast? = some (size - 2) → π.Pairwise (· < ·) →
+        pathCost 0 (stopsDocumented sq tr circ2 diameter duration) seg ≥
+          pathCost 0 (stopsDocumented sq tr circ2 diameter duration) π) ∧
+      findStopsGlobalPy 0 1 sq ofNat track resampled circ2 circ2 diameter duration downsampling =
+        .ok ((((pairs seg).filter (fun ab => stopsAdmitted tr circ2 diameter duration ab.1 (ab.2 - 1))).map
+          (fun ab => (ab.1, ab.2 - 1))).map
+          (fun ae => (ofNat ae.1 * downsampling, ofNat ae.2 * downsampling, ae.2 + 1 - ae.1))) := by
+  intro tr size
+  refine ⟨stopsSegmentation 0 sq (stopPredTrack 0 tr circ2 diameter duration) size, ?_⟩
+  obtain ⟨s1, s2, s3, _⟩ := stops_track_optimal sq tr circ2 diameter duration hd size hc hs [0, size - 2] rfl rfl
+    (by simp; omega)
+  refine ⟨s1, s2, s3, fun π h0 hN hinc => (stops_track_optimal sq tr circ2 diameter duration hd size hc hs π h0 hN hinc).2.2.2, ?_⟩
+  unfold findStopsGlobalPy
+  have h0 : ¬ (stopsTrack 1 downsampling track resampled).length = 0 := by omega
+  have h2 : ¬ (stopsTrack 1 downsampling track resampled).length ≤ 2 := by omega
+  simp only [if_neg h0, if_neg h2]
+  unfold stopsReported
+  rw [stops_final_filter _ circ2 diameter duration hd]
+
+end track
+
+section field
+variable {K : Type} [Field K] [LinearOrder K] [IsStrictOrderedRing K]
+
+/-- the run-time certificate computed by the driver on every stop-detection case (`enclosedB`, replied as `<enc>`) IS the
+hypothesis `hc` of `stops_criterion` / `stops_track_optimal` / `find_stops_global`: every circle handed to the model
+encloses the observations of its segment in the plane (radius² = a quarter of the squared diameter) -/
+theorem enclosedB_sound (tr : Nat → Fix K) (circ2 : Nat → Nat → Option K) (cx cy : Nat → Nat → K) (size : Nat)
+    (h : enclosedB 4 tr circ2 cx cy size = true) :
+    ∀ i e c, i ≤ e → e < size → circ2 i e = some c → ∃ cx' cy' r2, c = 4 * r2 ∧ Enclosed tr cx' cy' r2 i e := by
+  intro i e c hie he hc
+  refine ⟨cx i e, cy i e, c / 4, by ring, ?_⟩
+  intro k hk1 hk2
+  unfold enclosedB at h
+  rw [List.all_eq_true] at h
+  have h1 := h i (List.mem_range.mpr (by omega))
+  rw [List.all_eq_true] at h1
+  have h2 := h1 e (List.mem_range.mpr he)
+  rw [if_pos hie, hc] at h2
+  simp only at h2
+  rw [List.all_eq_true] at h2
+  have h3 := h2 (k - i) (List.mem_range.mpr (by omega))
+  have ek : i + (k - i) = k := by omega
+  rw [ek] at h3
+  have h4 : ¬ c < 4 * (((tr k).x - cx i e) * ((tr k).x - cx i e) + ((tr k).y - cy i e) * ((tr k).y - cy i e)) := by
+    simpa using h3
+  have h5 := not_lt.mp h4
+  rw [le_div_iff₀ (by norm_num : (0 : K) < 4)]
+  linarith
+
+/-- **T3 `find_stops_global_checked`** — `find_stops_global` with its hypothesis on the circles replaced by the certificate the
+driver checks on every case: for the circles the check hands to the model (exact minimal enclosing circles with their
+centres), what the model returns — and the real `findStopsGlobal` is compared with, cell by cell and stop by stop — is the
+set of admitted segments of a chain maximising the documented reward. -/
+theorem find_stops_global_checked (sq ofNat : Nat → K) (track resampled : List (Fix K)) (circ2 : Nat → Nat → Option K)
+    (cx cy : Nat → Nat → K) (diameter duration downsampling : K) (hd : 0 ≤ diameter)
+    (hs : 3 ≤ (stopsTrack 1 downsampling track resampled).length)
+    (henc : enclosedB 4 (getFix 0 (stopsTrack 1 downsampling track resampled)) circ2 cx cy
+      (stopsTrack 1 downsampling track resampled).length = true) :
+    let tr := getFix 0 (stopsTrack 1 downsampling track resampled)
+    let size := (stopsTrack 1 downsampling track resampled).length
+    ∃ seg : List Nat,
+      seg.head? = some 0 ∧ seg.getLast? = some (size - 2) ∧ seg.Pairwise (· < ·) ∧
+      (∀ π : List Nat, π.head? = some 0 → π.getLast? = some (size - 2) → π.Pairwise (· < ·) →
+        pathCost 0 (stopsDocumented sq tr circ2 diameter duration) seg ≥
+          pathCost 0 (stopsDocumented sq tr circ2 diameter duration) π) ∧
+      findStopsGlobalPy 0 1 sq ofNat track resampled circ2 circ2 diameter duration downsampling =
+        .ok ((((pairs seg).filter (fun ab => stopsAdmitted tr circ2 diameter duration ab.1 (ab.2 - 1))).map
+          (fun ab => (ab.1, ab.2 - 1))).map
+          (fun ae => (ofNat ae.1 * downsampling, ofNat ae.2 * downsampling, ae.2 + 1 - ae.1))) :=
+  find_stops_global sq ofNat track resampled circ2 diameter duration downsampling hd hs
+    (enclosedB_sound _ circ2 cx cy _ henc)
+end field
+
 /-! ## the hypotheses are satisfiable by non-trivial inputs -/
 
 /-- cost matrix of DESIGN.md §5 C12 (D11 witness), four candidates, as a `5 × 5` matrix -/
@@ -599,6 +888,55 @@ example : stopsSegmentation (0 : Int) (fun n => (n * n : Nat)) exStopsG 6 = [0, 
 example : (stopPredGlobal exDist (fun i e => exTime e - exTime i) (fun i e => some (exDist i e)) 2 60).small 0 2 = some true := by decide
 example : stopsSegmentation (0 : Int) (fun n => (n * n : Nat))
     (stopPredGlobal exDist (fun i e => exTime e - exTime i) (fun i e => some (exDist i e)) 20 61) 6 = [0, 4] := by decide +kernel
+
+/-! stop detection from a track: fixes 2 m apart on a line, one every 30 s, whose altitude channel jumps by 1000 m from one
+fix to the next (far above the diameter 5); `minCircle` of `p_i … p_e` is the circle on the segment's end points. The stops
+are those of the planimetric criterion (two or three consecutive fixes), the altitude changes nothing, and with
+`downsampling = 2` the identifiers are doubled and the criterion is read on the resampled copy. -/
+def exFix (k : Nat) : Fix Int := ⟨2 * (k : Int), 0, if k % 2 = 0 then 0 else 1000, 30 * (k : Int)⟩
+def exFlat (k : Nat) : Fix Int := ⟨2 * (k : Int), 0, 0, 30 * (k : Int)⟩
+def exCirc2 (i e : Nat) : Option Int := some (4 * ((e : Int) - i) * ((e : Int) - i))
+
+example : findStopsGlobalPy (0 : Int) 1 (fun n => ((n * n : Nat) : Int)) (fun n => (n : Int)) ((List.range 7).map exFix) []
+    exCirc2 exCirc2 5 30 1 = .ok [(0, 1, 2), (2, 4, 3)] := by decide +kernel
+example : findStopsGlobalPy (0 : Int) 1 (fun n => ((n * n : Nat) : Int)) (fun n => (n : Int)) ((List.range 7).map exFlat) []
+    exCirc2 exCirc2 5 30 1 = .ok [(0, 1, 2), (2, 4, 3)] := by decide +kernel
+example : findStopsGlobalPy (0 : Int) 1 (fun n => ((n * n : Nat) : Int)) (fun n => (n : Int)) ((List.range 7).map exFix)
+    ((List.range 5).map exFix) exCirc2 exCirc2 5 30 2 = .ok [(0, 4, 3)] := by decide +kernel
+example : findStopsGlobalPy (0 : Int) 1 (fun n => ((n * n : Nat) : Int)) (fun n => (n : Int)) ((List.range 7).map exFix) []
+    exCirc2 exCirc2 (-1) 30 1 = .ok [] := by decide +kernel
+example : findStopsGlobalPy (0 : Int) 1 (fun n => ((n * n : Nat) : Int)) (fun n => (n : Int)) ((List.range 2).map exFix) []
+    exCirc2 exCirc2 5 30 1 = .error .index := by decide +kernel
+-- `stops_planimetric`'s hypothesis: the two tracks agree on x, y, t
+example : ((List.range 7).map exFix).map Fix.flat = ((List.range 7).map exFlat).map Fix.flat := by decide +kernel
+/-- the hypothesis `hc` of `stops_criterion` / `stops_track_optimal` / `find_stops_global` is satisfiable: the circles of
+`exCirc2` enclose their segments (centre the mid-point of the end points) -/
+theorem exCirc2_encloses : ∀ i e c, exCirc2 i e = some c → ∃ cx cy r2, c = 4 * r2 ∧ Enclosed exFix cx cy r2 i e := by
+  intro i e c h
+  refine ⟨(i : Int) + e, 0, ((e : Int) - i) * ((e : Int) - i), ?_, ?_⟩
+  · simp only [exCirc2, Option.some.injEq] at h
+    rw [← h]; ring
+  · intro k h1 h2
+    simp only [exFix]
+    have a : (0 : Int) ≤ (k : Int) - i := by omega
+    have b : (0 : Int) ≤ (e : Int) - k := by omega
+    nlinarith [mul_nonneg a b]
+example : pathCost 0 (stopsDocumented (fun n => ((n * n : Nat) : Int)) exFix exCirc2 5 30)
+      (stopsSegmentation 0 (fun n => ((n * n : Nat) : Int)) (stopPredTrack 0 exFix exCirc2 5 30) 7) ≥
+    pathCost 0 (stopsDocumented (fun n => ((n * n : Nat) : Int)) exFix exCirc2 5 30) [0, 3, 5] :=
+  (stops_track_optimal _ exFix exCirc2 5 30 (by decide) 7 (fun i e c _ _ => exCirc2_encloses i e c) (by omega) [0, 3, 5] rfl rfl (by decide)).2.2.2
+example : stopsSegmentation 0 (fun n => ((n * n : Nat) : Int)) (stopPredTrack 0 exFix exCirc2 5 30) 7 = [0, 2, 5] ∧
+    pathCost 0 (stopsDocumented (fun n => ((n * n : Nat) : Int)) exFix exCirc2 5 30) [0, 2, 5] = 13 ∧
+    pathCost 0 (stopsDocumented (fun n => ((n * n : Nat) : Int)) exFix exCirc2 5 30) [0, 3, 5] = 13 := by decide +kernel
+
+/-! the certificate of `find_stops_global_checked` on the same track over ℚ (centres: the mid-points of the end points) -/
+def exFixQ (k : Nat) : Fix Rat := ⟨2 * (k : Rat), 0, if k % 2 = 0 then 0 else 1000, 30 * (k : Rat)⟩
+def exCirc2Q (i e : Nat) : Option Rat := some (4 * ((e : Rat) - i) * ((e : Rat) - i))
+example : enclosedB (4 : Rat) (getFix 0 ((List.range 7).map exFixQ)) exCirc2Q (fun i e => (i : Rat) + e) (fun _ _ => 0) 7 = true := by
+  decide +kernel
+-- a circle that is too small is refused
+example : enclosedB (4 : Rat) (getFix 0 ((List.range 7).map exFixQ)) (fun _ _ => some 1) (fun i e => (i : Rat) + e) (fun _ _ => 0) 7 = false := by
+  decide +kernel
 
 /-! `optimal_bracketed`: its monotonicity hypothesis holds for ℤ (and, outside Lean, for doubles without NaN) -/
 example : ∃ t : Br, t.WF ∧ t.chain = optimalPartition 0 5 exC 0 ∧
